@@ -343,7 +343,7 @@ impl<'a> GeneratorState<'a> {
                 };
             },
             ExprType::Absolute(varname, eight_bits, offset) => {
-                let v = self.compiler_state.get_variable(varname);
+                let v = self.variable_or_error(varname, pos)?;
                 if (v.var_type == VariableType::Short || v.var_type == VariableType::ShortPtr || v.var_type == VariableType::CharPtr || v.var_type == VariableType::CharPtrPtr) && *op == Operation::Brs(false) && !eight_bits {
                     // Special shift 8 case for extracting higher byte
                     match right {
@@ -404,7 +404,7 @@ impl<'a> GeneratorState<'a> {
                 }
             },
             ExprType::AbsoluteX(varname) | ExprType::AbsoluteY(varname) => {
-                let v = self.compiler_state.get_variable(varname);
+                let v = self.variable_or_error(varname, pos)?;
                 if (v.var_type == VariableType::ShortPtr || v.var_type == VariableType::CharPtrPtr) && *op == Operation::Brs(false) {
                     // Special shift 8 case for extracting higher byte
                     match right {
